@@ -9,6 +9,7 @@ import (
 	"os"
 	"sort"
 	"strings"
+	"time"
 
 	ipfslog "berty.tech/go-ipfs-log"
 	orbitdb "berty.tech/go-orbit-db"
@@ -135,6 +136,7 @@ type coreRun struct {
 	step  int
 	prev  map[string][]int // previous listing per replica (C08 stability)
 	trace *json.Encoder
+	nsync int
 }
 
 func (r *coreRun) violate(kind, detail string, exp, got interface{}) {
@@ -478,9 +480,38 @@ func (r *coreRun) apply(st Step) error {
 		for _, id := range hs {
 			heads = append(heads, copyEntry(r.c.entries[id]))
 		}
-		if err := r.c.refs[name].S.Sync(context.Background(), heads); err != nil {
+		// every second Sync: a reader looks at the store in the middle of the merge of what was fetched (after the first
+		// fetched log has been joined, before the others): whatever it sees then, what it sees afterwards is the whole log
+		target := r.c.refs[name].S
+		midRead := r.nsync%2 == 1
+		r.nsync++
+		if midRead {
+			sim.TheHub.ParkAt("join.log", func(args []interface{}) bool { return len(args) > 0 && sim.K(args[0]) == sim.K(target) })
+		}
+		if err := target.Sync(context.Background(), heads); err != nil {
+			sim.TheHub.Unpark("join.log")
 			r.violate("sync-error", "Sync of valid heads failed: "+err.Error(), nil, nil)
 			return err
+		}
+		if midRead {
+			if p := parkedFor("join.log", nil, 150*time.Millisecond); p != nil {
+				done := make(chan struct{})
+				go func() {
+					_ = r.proj(name)
+					if r.in.Type == "log" {
+						all := -1
+						_, _ = target.(orbitdb.EventLogStore).List(context.Background(), &iface.StreamOptions{Amount: &all})
+					}
+					close(done)
+				}()
+				select {
+				case <-done:
+					r.res.Stats["reads_in_the_middle_of_a_merge"]++
+				case <-time.After(200 * time.Millisecond):
+				}
+			}
+			sim.TheHub.Unpark("join.log")
+			sim.TheHub.ReleaseAll()
 		}
 		if err := r.c.settle(); err != nil {
 			return err
